@@ -75,6 +75,11 @@ func (t *fnTr) kindOfType(ty types.Type) string {
 		if n.Obj().Pkg() == nil && n.Obj().Name() == "error" {
 			return "err"
 		}
+		if n.Obj().Pkg() != nil {
+			if full := n.Obj().Pkg().Path() + "." + n.Obj().Name(); full == "strings.Builder" || full == "bytes.Buffer" {
+				return "writer" // a local `var sb strings.Builder`: the bytes written so far
+			}
+		}
 	}
 	switch u := ty.Underlying().(type) {
 	case *types.Basic:
@@ -279,6 +284,7 @@ type fnTr struct {
 	fresh   int
 	pairMemo int // 0 unknown, 1 pair result, 2 not
 	curRest  []ast.Stmt // the statements that follow the one being translated, in its list
+	topEnd   func() string // what falling off the end of the function body is
 	wb       bool       // write-back mode (inout.go, wb.go): in-place updates of a value tree
 	nextRebuild *rebuildSpec // consumed by the next loop(): the collection it ranges over is rebuilt
 	wbAfterCall []*lvar      // set by selfArgs: the locals that received the in-out results of the recursive call
@@ -1019,6 +1025,11 @@ func (t *fnTr) call(x *ast.CallExpr) string {
 		}
 		t.unsupported(x, "conversion "+types.ExprString(x.Fun))
 	}
+	if se, ok := x.Fun.(*ast.SelectorExpr); ok && len(x.Args) == 0 && (se.Sel.Name == "Bytes" || se.Sel.Name == "String") {
+		if wl := t.lvarOf(se.X); wl != nil && wl.kind == "writer" {
+			return wl.name // the bytes written so far
+		}
+	}
 	if id, ok := x.Fun.(*ast.Ident); ok {
 		if _, isB := t.p.info.Uses[id].(*types.Builtin); isB {
 			switch id.Name {
@@ -1155,7 +1166,7 @@ func (t *fnTr) call(x *ast.CallExpr) string {
 	}
 	// another function / method of the package with ONE result: an external call (Section variable)
 	if ec, ok := t.externCall(x); ok {
-		if len(ec.results) != 1 || len(ec.outArgs) != 0 {
+		if len(ec.results) != 1 || len(ec.outArgs) != 0 || ec.optOut {
 			t.unsupported(x, "external call with several results / out-parameters used as an expression")
 		}
 		return ec.term
@@ -1177,6 +1188,7 @@ type extCall struct {
 	stateOut []*lvar  // reader locals passed to the callee (it consumes from them), in parameter order
 	rich     string   // the Gallina pattern kind of R for a call with stateOut: "pair" (v, err) / "triple" / "res" / "one"
 	unbox    map[*lvar]bool // out-arguments that come back as a value and are unboxed into a map / slice local
+	optOut   bool           // writer / struct-pointer arguments: the callee's result is option (R * their new values), None = it panicked
 	lensArg  *lvar          // the callee returns part of this argument's tree together with a put-back function
 	lensTy   string         // ... of this Gallina type
 }
@@ -1275,6 +1287,36 @@ func (t *fnTr) externCall(x *ast.CallExpr) (*extCall, bool) {
 		}
 		a := x.Args[i]
 		switch {
+		case k == "writer":
+			// a *bytes.Buffer / *strings.Builder the callee writes to: what has been written comes back
+			wa := unparen(a)
+			if u, ok := wa.(*ast.UnaryExpr); ok && u.Op == token.AND {
+				wa = unparen(u.X)
+			}
+			wl := t.lvarOf(wa)
+			if _, isId := wa.(*ast.Ident); !isId || wl == nil || wl.kind != "writer" {
+				t.unsupported(x, "writer argument other than a writer local")
+			}
+			ec.outArgs = append(ec.outArgs, wl)
+			ec.optOut = true
+			args = append(args, wl.name)
+		case strings.HasPrefix(k, "rec:") && func() bool { _, isP := sig.Params().At(i).Type().(*types.Pointer); return isP }():
+			// a pointer to a package struct the callee may update: its fields go in and come back
+			var al *lvar
+			if id, ok := unparen(a).(*ast.Ident); ok {
+				al = t.locals[t.p.info.Uses[id]]
+			}
+			if al == nil || al.fields == nil || al.kind != k {
+				t.unsupported(x, "struct-pointer argument other than a struct local of that type")
+			}
+			tys = tys[:len(tys)-1]
+			for _, fnm := range al.forder {
+				fl := al.fields[fnm]
+				tys = append(tys, fnCoqType(fl.kind))
+				args = append(args, fl.name)
+				ec.outArgs = append(ec.outArgs, fl)
+			}
+			ec.optOut = true
 		case k == "reader":
 			var lv *lvar
 			if id, ok := a.(*ast.Ident); ok {
@@ -1379,6 +1421,14 @@ func (t *fnTr) externCall(x *ast.CallExpr) (*extCall, bool) {
 		}
 	}
 	switch {
+	case ec.optOut:
+		if len(ec.stateOut) > 0 || len(ec.unbox) > 0 || ec.lensArg != nil || len(ec.results) > 1 {
+			t.unsupported(x, "external call with writer / struct-pointer arguments and this signature")
+		}
+		rty = "(option " + tupleType(ec.outArgs) + ")"
+		if len(ec.results) == 1 {
+			rty = "(option (" + fnCoqType(ec.results[0]) + " * " + tupleType(ec.outArgs) + "))"
+		}
 	case ec.lensArg != nil:
 		rty = "(res (" + fnCoqType(ec.results[0]) + " * " + ec.lensTy + "))"
 	case len(ec.results) == 1 && len(ec.outArgs) > 0 && len(ec.stateOut) == 0:
@@ -1708,6 +1758,26 @@ func (t *fnTr) assigned(list []ast.Stmt) []*lvar {
 								add(dl)
 							}
 						}
+						if !t.isSelfCall(c) && t.calleeThreads(c) {
+							for _, a := range c.Args {
+								wa := unparen(a)
+								if u, ok := wa.(*ast.UnaryExpr); ok && u.Op == token.AND {
+									wa = unparen(u.X)
+								}
+								if id, ok := wa.(*ast.Ident); ok {
+									if al, ok := t.locals[t.p.info.Uses[id]]; ok {
+										if al.kind == "writer" {
+											add(al)
+										}
+										if al.fields != nil && strings.HasPrefix(al.kind, "rec:") {
+											for _, fnm := range al.forder {
+												add(al.fields[fnm])
+											}
+										}
+									}
+								}
+							}
+						}
 						// a recursive call used for its results also threads the state parameters
 						if t.isSelfCall(c) {
 							for _, sv := range t.state {
@@ -1786,6 +1856,36 @@ func (t *fnTr) assigned(list []ast.Stmt) []*lvar {
 			}
 			return true
 		})
+	}
+	// variables declared inside the list are not part of the state that leaves it (their locals exist already when the list
+	// is translated a second time)
+	declared := map[*lvar]bool{}
+	for _, s := range list {
+		ast.Inspect(s, func(n ast.Node) bool {
+			if id, ok := n.(*ast.Ident); ok {
+				if o := t.p.info.Defs[id]; o != nil {
+					if lv, ok := t.locals[o]; ok {
+						declared[lv] = true
+						for _, fl := range lv.fields {
+							declared[fl] = true
+						}
+						if lv.nilFlag != nil {
+							declared[lv.nilFlag] = true
+						}
+					}
+				}
+			}
+			return true
+		})
+	}
+	if len(declared) > 0 {
+		kept := out[:0]
+		for _, lv := range out {
+			if !declared[lv] {
+				kept = append(kept, lv)
+			}
+		}
+		out = kept
 	}
 	return out
 }
@@ -1878,6 +1978,66 @@ func (t *fnTr) isPkgFunc(c *ast.CallExpr) bool {
 	}
 	fn, ok := callee.(*types.Func)
 	return ok && fn.Pkg() == t.p.pkg
+}
+
+func (t *fnTr) isTopLabel(x *ast.LabeledStmt) bool {
+	for _, st := range t.fn.Body.List {
+		if st == ast.Stmt(x) {
+			return true
+		}
+	}
+	return false
+}
+
+// gotoStmt: `goto L` with L a label further down at the top level of the function body, in a function with results: the rest of
+// the function from L on, with the variables as they are now, is what the function returns.  Every variable has one Gallina
+// name for its whole life and the loop states carry the variables assigned in the loops, so the statements after L read the
+// current values whatever the nesting of the goto is.  (Variables declared between the goto and L cannot be live at L: the
+// Go compiler rejects a goto that jumps over a variable declaration in L's block.)
+func (t *fnTr) gotoStmt(x *ast.BranchStmt) string {
+	if t.sumJoin || len(t.resKind) == 0 || t.topEnd == nil {
+		t.unsupported(x, "goto in a function without results / in join mode")
+	}
+	var cont []ast.Stmt
+	for i, st := range t.fn.Body.List {
+		if ls, ok := st.(*ast.LabeledStmt); ok && ls.Label.Name == x.Label.Name && ls.Pos() > x.Pos() {
+			cont = append([]ast.Stmt{ls.Stmt}, t.fn.Body.List[i+1:]...)
+		}
+	}
+	if cont == nil {
+		t.unsupported(x, "goto other than forward to a label at the top level of the function body")
+	}
+	savedIn, savedEnd, savedBreak, savedS, savedRest := t.inLoop, t.loopEnd, t.breakEnd, t.curS, t.curRest
+	t.inLoop, t.loopEnd, t.breakEnd, t.curS = false, nil, nil, "unit"
+	body := t.stmts(cont, t.topEnd)
+	t.inLoop, t.loopEnd, t.breakEnd, t.curS, t.curRest = savedIn, savedEnd, savedBreak, savedS, savedRest
+	return "(go_jump (" + body + " : ctl unit " + t.resultType() + "))"
+}
+
+// calleeThreads: a call of a package function with a writer parameter or a pointer-to-package-struct parameter
+func (t *fnTr) calleeThreads(c *ast.CallExpr) bool {
+	var callee types.Object
+	switch f := c.Fun.(type) {
+	case *ast.Ident:
+		callee = t.p.info.Uses[f]
+	case *ast.SelectorExpr:
+		if sel, ok := t.p.info.Selections[f]; ok && sel.Kind() == types.MethodVal {
+			callee = sel.Obj()
+		}
+	}
+	fn, ok := callee.(*types.Func)
+	if !ok || fn.Pkg() != t.p.pkg {
+		return false
+	}
+	sig := fn.Type().(*types.Signature)
+	for i := 0; i < sig.Params().Len(); i++ {
+		k := t.kindOfType(sig.Params().At(i).Type())
+		_, isP := sig.Params().At(i).Type().(*types.Pointer)
+		if k == "writer" && isP || strings.HasPrefix(k, "rec:") && isP {
+			return true
+		}
+	}
+	return false
 }
 
 func (t *fnTr) isSelfCall(c *ast.CallExpr) bool {
@@ -2324,7 +2484,7 @@ func (t *fnTr) retExpr(x *ast.ReturnStmt) string {
 		// return f(args): the callee's error; its in-out arguments come back and are written back first
 		mark := len(t.guards)
 		ec, ok := t.externCall(x.Results[0].(*ast.CallExpr))
-		if !ok || len(ec.results) != 1 || ec.results[0] != "err" || len(ec.stateOut) != 0 {
+		if !ok || len(ec.results) != 1 || ec.results[0] != "err" || len(ec.stateOut) != 0 || ec.optOut {
 			t.unsupported(x, "returned call with this signature")
 		}
 		if len(ec.outArgs) == 0 {
@@ -2415,7 +2575,16 @@ func (t *fnTr) stmts(list []ast.Stmt, end func() string) string {
 		if x.Tok == token.BREAK && x.Label == nil && t.breakEnd != nil {
 			return t.breakEnd() // the end of the innermost switch, or the exit of the innermost for loop
 		}
+		if x.Tok == token.GOTO && x.Label != nil {
+			return t.gotoStmt(x)
+		}
 		t.unsupported(s, "branch statement "+x.Tok.String())
+	case *ast.LabeledStmt:
+		// a label at the top level of the function body, used by goto only (labelled break / continue are outside the fragment)
+		if !t.isTopLabel(x) {
+			t.unsupported(s, "label other than at the top level of the function body")
+		}
+		return t.stmts(append([]ast.Stmt{x.Stmt}, rest...), end)
 	case *ast.DeclStmt:
 		gd, ok := x.Decl.(*ast.GenDecl)
 		if !ok || gd.Tok != token.VAR {
@@ -2629,7 +2798,7 @@ func (t *fnTr) stmts(list []ast.Stmt, end func() string) string {
 			}
 			mark := len(t.guards)
 			if ec, isExt := t.externCall(c); isExt {
-				if len(ec.results) != 0 || len(ec.outArgs) == 0 {
+				if len(ec.results) != 0 || len(ec.outArgs) == 0 || ec.optOut {
 					t.unsupported(s, "call for its effect other than a void function with out-parameters")
 				}
 				wbs := ""
@@ -2781,6 +2950,15 @@ func (t *fnTr) assign(x *ast.AssignStmt, next func() string) string {
 				}
 			}
 		}
+		// _, err = d.Token() on a local *xml.Decoder
+		if c, isCall := x.Rhs[0].(*ast.CallExpr); isCall && !define {
+			if se, ok := c.Fun.(*ast.SelectorExpr); ok && (se.Sel.Name == "Token" || se.Sel.Name == "RawToken") && len(c.Args) == 0 {
+				if dl := t.lvarOf(se.X); dl != nil && dl.kind == "xdecoder" {
+					va, vb := bind(a, "xtok"), bind(b, "errv")
+					return "let '(" + va + ", " + vb + ", " + dl.name + ") := go_token " + dl.name + " in\n  " + next()
+				}
+			}
+		}
 		// n, err := rdr.Read(buf) on the io.Reader parameter with a local one-byte buffer
 		if c, isCall := x.Rhs[0].(*ast.CallExpr); isCall && define {
 			if se, ok := c.Fun.(*ast.SelectorExpr); ok && se.Sel.Name == "Read" && len(c.Args) == 1 {
@@ -2840,7 +3018,7 @@ func (t *fnTr) assign(x *ast.AssignStmt, next func() string) string {
 		if c, isCall := x.Rhs[0].(*ast.CallExpr); isCall {
 			mark := len(t.guards)
 			if ec, ok := t.externCall(c); ok {
-				if len(ec.results) != 2 || ec.results[1] != "err" {
+				if len(ec.results) != 2 || ec.results[1] != "err" || ec.optOut {
 					t.unsupported(x, "two-value external call other than (T, error)")
 				}
 				if len(ec.stateOut) > 0 {
@@ -2985,6 +3163,37 @@ func (t *fnTr) assign(x *ast.AssignStmt, next func() string) string {
 		}
 		return t.wrap(mark, "bindr ("+fnPrefix+t.self.Name()+" fuel_ st "+strings.Join(args, " ")+")\n  (fun "+rp+" =>\n  "+next()+")")
 	}
+	if c, isCall := x.Rhs[0].(*ast.CallExpr); isCall && !t.isSelfCall(c) && t.calleeThreads(c) {
+		// err = f(..., b, ..., p) with b a writer local / p a struct local the callee updates: the result comes back together
+		// with what has been written / the fields afterwards; None = the callee panicked
+		lid, isId := x.Lhs[0].(*ast.Ident)
+		if !isId {
+			t.unsupported(x, "call with writer / struct-pointer arguments assigned to something other than a variable")
+		}
+		mark := len(t.guards)
+		ec, ok := t.externCall(c)
+		if !ok || !ec.optOut || len(ec.results) != 1 {
+			t.unsupported(x, "call with writer / struct-pointer arguments and this signature")
+		}
+		k := ec.results[0]
+		if k == "err" {
+			k = "errv"
+		}
+		var vn string
+		switch {
+		case lid.Name == "_":
+			vn = "_"
+		case define:
+			vn = t.newLocal(t.p.info.Defs[lid], lid.Name, k).name
+		default:
+			lv, ok := t.locals[t.p.info.Uses[lid]]
+			if !ok || lv.kind != k || lv.fields != nil {
+				t.unsupported(x, "call result assigned to a variable of another type")
+			}
+			vn = lv.name
+		}
+		return t.wrap(mark, "match "+ec.term+" with None => Crash | Some ("+vn+", "+strings.TrimPrefix(tuplePat(ec.outArgs), "'")+") =>\n  "+next()+" end")
+	}
 	switch l := x.Lhs[0].(type) {
 	case *ast.Ident:
 		var obj types.Object
@@ -3020,6 +3229,46 @@ func (t *fnTr) assign(x *ast.AssignStmt, next func() string) string {
 					lv.fields["Name"], lv.fields["Attr"] = fn, fa
 					lv.forder = []string{"Name", "Attr"}
 					return "(match " + tl.name + " with Some (TStart " + fn.name + " " + fa.name + ") =>\n  " + next() + "\n  | _ => Crash end)"
+				}
+			}
+		}
+		// d := xml.NewDecoder(bytes.NewReader(b)): the token stream of the bytes, computed by the environment function
+		// ext_xml_NewDecoder (the tokenizer of encoding/xml); d may only be read with d.Token() / d.RawToken()
+		if define {
+			if c, ok := x.Rhs[0].(*ast.CallExpr); ok && len(c.Args) == 1 {
+				if pk, nm, isPkg := t.pkgCall(c); isPkg && pk == "encoding/xml" && nm == "NewDecoder" {
+					if rc, ok := c.Args[0].(*ast.CallExpr); ok && len(rc.Args) == 1 {
+						if pk2, nm2, isPkg2 := t.pkgCall(rc); isPkg2 && pk2 == "bytes" && nm2 == "NewReader" && t.kindOfExpr(rc.Args[0]) == "str" {
+							nUse, nTok := 0, 0
+							ast.Inspect(t.fn.Body, func(n ast.Node) bool {
+								if id, ok := n.(*ast.Ident); ok && t.p.info.Uses[id] == obj {
+									nUse++
+								}
+								if ce, ok := n.(*ast.CallExpr); ok && len(ce.Args) == 0 {
+									if se, ok := ce.Fun.(*ast.SelectorExpr); ok && (se.Sel.Name == "Token" || se.Sel.Name == "RawToken") {
+										if id, ok := se.X.(*ast.Ident); ok && t.p.info.Uses[id] == obj {
+											nTok++
+										}
+									}
+								}
+								return true
+							})
+							if nUse != nTok {
+								t.unsupported(x, "a local xml.Decoder used other than by Token / RawToken")
+							}
+							mark := len(t.guards)
+							src := t.expr(rc.Args[0])
+							lv := t.newLocal(obj, l.Name, "xdecoder")
+							found := false
+							for _, e := range *t.externs {
+								found = found || e.name == "ext_xml_NewDecoder"
+							}
+							if !found {
+								*t.externs = append(*t.externs, extern{"ext_xml_NewDecoder", "str -> xdecoder"})
+							}
+							return t.wrap(mark, "let "+lv.name+" : xdecoder := (ext_xml_NewDecoder "+src+") in\n  "+next())
+						}
+					}
 				}
 			}
 		}
@@ -3139,6 +3388,11 @@ func (t *fnTr) assign(x *ast.AssignStmt, next func() string) string {
 				if id, ok := c.Fun.(*ast.Ident); ok && id.Name == "new" {
 					if _, isB := t.p.info.Uses[id].(*types.Builtin); isB {
 						k := t.kindOfType(obj.Type())
+						if k == "writer" {
+							// b := new(bytes.Buffer): nothing written yet
+							lv := t.newLocal(obj, l.Name, "writer")
+							return "let " + lv.name + " : str := [] in\n  " + next()
+						}
 						if !strings.HasPrefix(k, "rec:") {
 							t.unsupported(x, "new of this type")
 						}
@@ -3192,6 +3446,8 @@ func (t *fnTr) assign(x *ast.AssignStmt, next func() string) string {
 		switch {
 		case lv.kind == "val":
 			val = t.boxVal(x.Rhs[0])
+		case t.p.info.Types[x.Rhs[0]].IsNil() && lv.kind == "errv":
+			val = "None" // err = nil
 		case t.p.info.Types[x.Rhs[0]].IsNil() && (lv.kind == "vlist" || lv.kind == "strs" || lv.kind == "vmap"):
 			val = fnZero(lv.kind) // a nil slice / map and an empty one are the same model value
 			if lv.nilFlag != nil {
@@ -4204,6 +4460,16 @@ func (t *fnTr) forStmt(x *ast.ForStmt, rest []ast.Stmt, end func() string) strin
 			}
 		}
 		first, _ := firstStmt(x.Body).(*ast.AssignStmt)
+		if rl == nil && first != nil && len(first.Rhs) == 1 {
+			// ... or one token of a local *xml.Decoder (made from bytes: a finite token stream)
+			if c, ok := first.Rhs[0].(*ast.CallExpr); ok {
+				if se, ok := c.Fun.(*ast.SelectorExpr); ok {
+					if dl := t.lvarOf(se.X); dl != nil && dl.kind == "xdecoder" {
+						rl = dl
+					}
+				}
+			}
+		}
 		isRead := false
 		if first != nil && len(first.Rhs) == 1 {
 			if c, ok := first.Rhs[0].(*ast.CallExpr); ok {
@@ -4443,7 +4709,7 @@ func constTable(p *pkgInfo, vs *ast.ValueSpec, i int) (string, bool) {
 
 // the functions translated into Pure_gen.v ("Recv.Method" for methods)
 var pureFuncs = []string{"cast", "escapeChars", "parsePath", "getSubKeyMap", "hasSubKeys", "Map.PathForKeyShortest", "valuesForKeyPath", "hasKey", "hasKeyPath", "getLeafNodes",
-	"Map.ValuesForKey", "Map.oldValuesForPath", "Map.ValuesForPath", "Map.LeafNodes", "getJson", "NewMapJsonReader", "NewMapJsonReaderRaw", "Map.Exists", "Map.ValueForPath", "Map.ValueForKey", "Map.LeafPaths", "Map.LeafValues", "valuesForArray", "Map.PathsForKey", "byteReader.ReadByte", "teeReader.ReadByte", "Maps.JsonString", "Maps.JsonStringIndent", "Maps.XmlString", "Maps.XmlStringIndent", "BeautifyXml", "Map.Copy", "Map.Json", "Map.Root", "NewMapXml", "NewMapXmlSeq", "lastKey", "xmlToMapParser", "xmlSeqToMapParser", "Map.JsonWriter", "Map.JsonWriterRaw", "Map.JsonIndentWriter", "Map.JsonIndentWriterRaw", "Map.XmlWriter", "Map.XmlIndentWriter", "MapSeq.XmlWriter", "MapSeq.XmlIndentWriter", "mapToXmlSeqIndent", "pretty.Indent", "pretty.Outdent", "elemListSeq.Less", "marshalMapToXmlIndent", "attrList.Less", "elemList.Less", "NewMapJson", "updateValueForKey", "updateValue", "updateValuesForKeyPath", "Map.UpdateValuesForPath", "prevValueByPath", "remove", "renameKey", "Map.Remove", "Map.RenameKey", "parentPath", "Map.SetValueForPath"}
+	"Map.ValuesForKey", "Map.oldValuesForPath", "Map.ValuesForPath", "Map.LeafNodes", "getJson", "NewMapJsonReader", "NewMapJsonReaderRaw", "Map.Exists", "Map.ValueForPath", "Map.ValueForKey", "Map.LeafPaths", "Map.LeafValues", "valuesForArray", "Map.PathsForKey", "byteReader.ReadByte", "teeReader.ReadByte", "Maps.JsonString", "Maps.JsonStringIndent", "Maps.XmlString", "Maps.XmlStringIndent", "BeautifyXml", "Map.Copy", "Map.Json", "Map.Root", "NewMapXml", "NewMapXmlSeq", "lastKey", "xmlToMapParser", "xmlSeqToMapParser", "Map.JsonWriter", "Map.JsonWriterRaw", "Map.JsonIndentWriter", "Map.JsonIndentWriterRaw", "Map.XmlWriter", "Map.XmlIndentWriter", "MapSeq.XmlWriter", "MapSeq.XmlIndentWriter", "mapToXmlSeqIndent", "pretty.Indent", "pretty.Outdent", "elemListSeq.Less", "marshalMapToXmlIndent", "attrList.Less", "elemList.Less", "NewMapJson", "updateValueForKey", "updateValue", "updateValuesForKeyPath", "Map.UpdateValuesForPath", "prevValueByPath", "remove", "renameKey", "Map.Remove", "Map.RenameKey", "parentPath", "Map.SetValueForPath", "Map.Xml", "Map.XmlIndent", "MapSeq.Xml", "MapSeq.XmlIndent"}
 
 // joinMode: functions translated in join mode (see branching): the statements after an if / switch are translated
 // once instead of into every branch.  The continuation-passing translation of the other functions is kept as it is
@@ -4737,6 +5003,7 @@ func genPure(p *pkgInfo) string {
 					}
 				}
 			}
+			t.topEnd = fallEnd
 			body := t.stmts(fn.Body.List, fallEnd)
 			for _, lv := range t.locals {
 				if strings.HasPrefix(lv.kind, "rec:") {
